@@ -16,15 +16,25 @@
    hypothesis: quadratic_solve does not use it.
 
    Results (all for every a <> 0, b, c : C and every such arithmetic with eps <= 1/100; NO hypothesis on the discriminant):
-     quadratic_residual_lemma    both returned values x satisfy
-                                     |a x^2 + b x + c| <= 16 eps (|a||x|^2 + |b||x| + |c|)
-                                 -- the normwise backward error of the search of driver/c10.py is at most this quotient;
-     quadratic_backward_lemma    hence each returned x is an EXACT root of (a+da) x^2 + (b+db) x + (c+dc) with
-                                 |da| <= 16 eps |a|, |db| <= 16 eps |b|, |dc| <= 16 eps |c|   (perturbation depending on x);
-     quadratic_q0_round_lemma    the repaired branch q == 0 is taken only for b = c = 0, and returns [0; 0] exactly;
-     quadratic_product_lemma     r0 r1 = (c / a)(1 + d), |d| <= 2 eps + eps^2  (q <> 0);
-     linear_root_backward_lemma  the root of c1 x + c0 returned by poly_solve is the exact root of c1 x + c0 (1 + d), |d| <= eps.
-   The cancellation in b^2 - 4ac is harmless for THIS (residual) form of the error: the computed discriminant is off by at
+     quadratic_residual_lemma        both returned values x satisfy
+                                         |a x^2 + b x + c| <= 16 eps (|a||x|^2 + |b||x| + |c|)
+                                     -- the normwise backward error of the search of driver/c10.py is at most 3 times this quotient
+                                     (quadratic_search_measure_lemma: 48 eps);
+     quadratic_backward_lemma        hence each returned x is an EXACT root of (a+da) x^2 + (b+db) x + (c+dc) with
+                                     |da| <= 16 eps |a|, |db| <= 16 eps |b|, |dc| <= 16 eps |c|   (perturbation depending on x);
+     quadratic_simultaneous_lemma    BOTH returned values are the two roots of a x^2 + (b+db) x + (c+dc) with
+                                     |dc| <= (2 eps + eps^2)|c|,  |db| <= 16 eps sqrt(|b|^2 + 4|a||c|)  (a bound relative to |b| alone is
+                                     not attainable: Proofs/RootsRoundEx.v);
+     quadratic_q0_round_lemma        the repaired branch q == 0 is taken exactly when b = c = 0, and returns [0; 0] exactly;
+     quadratic_product_lemma         r0 r1 = (c / a)(1 + d), |d| <= 2 eps + eps^2  (q <> 0);
+     linear_root_backward_lemma      the root of c1 x + c0 returned by poly_solve is the exact root of c1 x + c0 (1 + d), |d| <= eps;
+     quad_core_rel / quad_residual_rel / quadratic_residual_local_lemma
+                                     the same analysis RELATIONALLY (any values related to their operands as the twelve roundings are),
+                                     hence from [quad_ops_ok]: the standard model assumed only at the arguments that occur.
+   Sections 4-5 restate everything with the arithmetic bundled ([RoundOps], [std_model], [RoundRAo]); the pinned theorems of
+   Props/C10.v use that form.  Forward error: Proofs/RootsRoundFwd.v; cubic: RootsRoundCubic.v, RootsRoundCardano.v; an instance
+   that really rounds (the model's complex operators over rounded reals): RootsRoundFlx.v; examples: RootsRoundEx.v.
+   The cancellation in b^2 - 4ac is harmless for the RESIDUAL form of the error: the computed discriminant is off by at
    most eta (|b|^2 + 4|a||c|), and |b|^2 <= 4|q|^2 / (1 - eps) because the sign choice of the code -- proved here, with the
    ROUNDED product conj(b) * sqrt(disc) the code tests -- makes |b + sgn s|^2 >= (1 - eps)(|b|^2 + |s|^2). *)
 From Coq Require Import List Arith Bool Reals Lra Lia Psatz.
@@ -37,8 +47,12 @@ Local Open Scope R_scope.
 Lemma Rabs_le_inv (x y : R) : Rabs x <= y -> - y <= x <= y.
 Proof. unfold Rabs. destruct (Rcase_abs x); lra. Qed.
 
+(* notations kept in a module so that a file importing this one (Props/C10.v) does not get them *)
+Module RRN.
 Notation C0 := (RtoC 0).
 Notation C1 := (RtoC 1).
+End RRN.
+Import RRN.
 
 Lemma Cmod_sqr (z : C) : Cmod z * Cmod z = fst z * fst z + snd z * snd z.
 Proof.
